@@ -23,6 +23,7 @@ import (
 	"fmt"
 	"io"
 	"os"
+	"os/exec"
 	"path/filepath"
 	"sort"
 	"strings"
@@ -1003,6 +1004,14 @@ func runRepo(w *gen.Writer, sp repoSpec, tmp string) {
 		results[pi] = readIndexDir(indexDir)
 	}
 
+	// ---- fault: the `git cat-file --batch` child stops answering after the first half of the requested ids (a `git`
+	// wrapper first in PATH forwards only that many ids). The real IndexGitRepo must fail, or else deliver every document.
+	if missingHash == "" && len(collected) >= 2 {
+		served := len(collected) / 2
+		verdict, class := catfileFault(dir, repoDir, sp, served, len(results[1]))
+		w.Emit(gen.Case{Go: verdict, Key: "catfile-fault-silent-loss", Class: "e2e:catfile-fault:" + class, Nontrivial: true, Detail: detail})
+	}
+
 	// ---- collect: the real prepareNormalBuild vs the model
 	var ptab []string
 	var brSpecs []string
@@ -1110,6 +1119,51 @@ func runRepo(w *gen.Writer, sp repoSpec, tmp string) {
 			Impl: fmt.Sprintf("g=%s c=%s", gd, cdoc), Key: k, Class: "e2e:doc:" + strings.SplitN(gd, ":", 2)[0], Nontrivial: true, Detail: detail,
 		})
 	}
+}
+
+// catfileFault indexes the repository through the cat-file path with a git whose `cat-file --batch` sees only the
+// first `served` ids; wantDocs is the number of documents the undisturbed cat-file run produced.
+func catfileFault(dir, repoDir string, sp repoSpec, served, wantDocs int) (verdict, class string) {
+	realGit, err := exec.LookPath("git")
+	if err != nil {
+		panic(err)
+	}
+	bin := filepath.Join(dir, "faultbin")
+	os.MkdirAll(bin, 0o755)
+	script := fmt.Sprintf("#!/bin/sh\nif [ \"$1\" = cat-file ] && [ \"$2\" = --batch ]; then\n  head -n %d | %s \"$@\"\n  exit 0\nfi\nexec %s \"$@\"\n", served, realGit, realGit)
+	if err := os.WriteFile(filepath.Join(bin, "git"), []byte(script), 0o755); err != nil {
+		panic(err)
+	}
+	oldPath := os.Getenv("PATH")
+	os.Setenv("PATH", bin+string(os.PathListSeparator)+oldPath)
+	os.Setenv("ZOEKT_DISABLE_CATFILE_BATCH", "false")
+	defer func() {
+		os.Setenv("PATH", oldPath)
+		os.Unsetenv("ZOEKT_DISABLE_CATFILE_BATCH")
+	}()
+	indexDir := filepath.Join(dir, "idxfault")
+	os.MkdirAll(indexDir, 0o755)
+	opts := gitindex.Options{
+		RepoDir:  repoDir,
+		Branches: sp.Indexed,
+		BuildOptions: index.Options{
+			IndexDir:              indexDir,
+			RepositoryDescription: zoekt.Repository{Name: "repository"},
+			DisableCTags:          true,
+			SizeMax:               sp.SizeMax,
+			LargeFiles:            largeFiles,
+		},
+	}
+	opts.BuildOptions.SetDefaults()
+	_, _, err = gitindex.VerifNormalFiles(opts)
+	if err != nil {
+		return "ok", "reported-error"
+	}
+	got := len(readIndexDir(indexDir))
+	if got != wantDocs {
+		return fmt.Sprintf("git cat-file answered only %d of the requested ids, IndexGitRepo reported success with %d of %d documents", served, got, wantDocs), "silent-loss"
+	}
+	return "ok", "complete"
 }
 
 func trunc(b []byte) string {
